@@ -2,14 +2,14 @@
 # against the vstd contract of std::collections::HashMap -- unbounded in the number of tracked keys, with
 # the exact i64 no-overflow conditions as preconditions (not a 2^40 magnitude bound as in K-SLFU).
 #
-# Verified on the real bodies: increment_hashed_key, clear, room_left, increment, remove, update, hash_key.
+# Verified on the real bodies: increment_hashed_key, clear, room_left, fill_sample, increment, remove, update, hash_key.
 # Contract only (external_body here, discharged on the real bodies by Kani unit K-SLFU):
 #   remove_hashed_key  (Option::inspect with a closure capturing `&mut self.used`: rejected by Verus)
 #   update_hashed_key  (HashMap::get_mut: no vstd specification, `&mut` returned from a call)
 #   get_max_cost       (AtomicI64::load: vstd gives it no postcondition; modelled as reading `atomic_val`)
-# Not in this unit: fill_sample (`for .. in &HashMap`: vstd specifies HashMap::iter but not
-# <&HashMap as IntoIterator>::into_iter, so the loop cannot be related to the table), update_max_cost
-# (interior mutability through &self), constructors.  They stay with K-SLFU.
+# Dependency contract added (assume_specification): <&HashMap as IntoIterator>::into_iter has the postcondition vstd
+# gives HashMap::iter (std implements it as `self.iter()`); fill_sample's loop is proved against it.
+# Not in this unit: update_max_cost (interior mutability through &self), constructors.  They stay with K-SLFU.
 import os
 F = 'src/lfu/sampled.rs'
 
@@ -73,6 +73,18 @@ pub proof fn lemma_sum_insert(m: Map<u64, i64>, k: u64, v: i64)
     }
 }
 
+/// dependency contract: `for .. in &map` is `map.iter()` (std implements <&HashMap as IntoIterator>::into_iter as
+/// `self.iter()`); the postcondition is the one vstd gives HashMap::iter
+pub assume_specification<'a, K, V, S, A: core::alloc::Allocator>[ <&'a HashMap<K, V, S, A> as IntoIterator>::into_iter ](m: &'a HashMap<K, V, S, A>) -> (it: std::collections::hash_map::Iter<'a, K, V>)
+    ensures
+        obeys_key_model::<K>() && builds_valid_hashers::<S>() ==> {
+            &&& it.obeys_prophetic_iter_laws()
+            &&& it.decrease() is Some
+            &&& it.remaining().no_duplicates()
+            &&& it.remaining().len() == m@.len()
+            &&& (forall|j: int| 0 <= j < it.remaining().len() ==> m@.contains_pair(*(#[trigger] it.remaining()[j]).0, *it.remaining()[j].1))
+        };
+
 /// the value an AtomicI64 holds (vstd gives `load` no postcondition); written only by update_max_cost
 pub uninterp spec fn atomic_val(a: &AtomicI64) -> i64;
 '''
@@ -85,6 +97,7 @@ impl<K: Hash + Eq, KH: KeyHasher<K>, S: BuildHasher> SampledLFU<K, KH, S> {
     pub closed spec fn total(&self) -> int { self.used as int }
     pub closed spec fn max(&self) -> int { atomic_val(&self.max_cost) as int }
     pub closed spec fn hasher(&self) -> &KH { &self.kh }
+    pub closed spec fn sample_size(&self) -> nat { self.samples as nat }
 
     /// [C20] representation invariant: the running total equals the sum of the costs currently recorded
     pub open spec fn inv(&self) -> bool {
@@ -149,6 +162,31 @@ ITEMS = [
          spec='''    requires self.inv(), fits(self.total() + cost), fits(self.max() - (self.total() + cost))
     ensures r as int == self.max() - map_sum(self.costs()) - cost  // [C20] room_left(c) == max_cost - sum of recorded costs - c''',
          props=['C20', 'C05']),
+    dict(kind='fn', file=F, impl=IMPL, name='fill_sample', ret='r', attrs='#[verifier::loop_isolation(false)]\n',
+         spec='''    requires hasher_ok::<S>()
+    ensures
+        // [C20] the input comes first, unchanged
+        r@.len() >= pairs@.len(), r@.take(pairs@.len() as int) == pairs@,
+        // [C20] followed only by genuinely tracked (key, cost) pairs, each tracked key at most once
+        forall|i: int| pairs@.len() <= i < r@.len() ==> old(self).costs().contains_pair(r@[i].0, r@[i].1),
+        forall|i: int, j: int| pairs@.len() <= i < j < r@.len() ==> r@[i].0 != r@[j].0,
+        // [C20] until the sample size is reached (or every tracked pair has been appended)
+        r@.len() == (if pairs@.len() >= old(self).sample_size() { pairs@.len() }
+                     else if pairs@.len() + old(self).costs().len() <= old(self).sample_size() { pairs@.len() + old(self).costs().len() }
+                     else { old(self).sample_size() }),
+        final(self).costs() == old(self).costs(), final(self).total() == old(self).total(),
+        final(self).max() == old(self).max(), final(self).hasher() == old(self).hasher()''',
+         for_names={0: 'it'},
+         stmts={'B2/0~for (k, v)': 'let ghost p0 = pairs@;'},
+         loops={'B3': '''        invariant
+            pairs@.len() < self.samples,
+            pairs@.len() == p0.len() + it.index(),
+            pairs@.take(p0.len() as int) == p0,
+            it.seq().no_duplicates(),
+            it.seq().len() == self.key_costs@.len(),
+            forall|j: int| 0 <= j < it.seq().len() ==> self.key_costs@.contains_pair(*(#[trigger] it.seq()[j]).0, *it.seq()[j].1),
+            forall|i: int| p0.len() <= i < pairs@.len() ==> pairs@[i] == (*it.seq()[i - p0.len()].0, *it.seq()[i - p0.len()].1),'''},
+         props=['C20', 'C05']),
     dict(kind='fn', file=F, impl=IMPL, name='hash_key', ret='r',
          spec='    ensures r == self.hasher().spec_hash(k)', props=['C20']),
     dict(kind='fn', file=F, impl=IMPL, name='increment_hashed_key', spec=H(INC_SPEC, 'key'),
@@ -171,9 +209,10 @@ ITEMS = [
 UNIT = dict(
     name='V-SLFU',
     props=['C20', 'C05'],
+    crate_attrs='#![feature(allocator_api)]\n',
     uses=('use core::borrow::Borrow;\nuse core::hash::{BuildHasher, Hash};\nuse core::marker::PhantomData;\n'
           'use core::sync::atomic::{AtomicI64, Ordering};\nuse std::collections::HashMap;\n'
-          'use std::collections::hash_map::RandomState as DefaultHashBuilder;\nuse vstd::std_specs::hash::*;\n'),
+          'use std::collections::hash_map::RandomState as DefaultHashBuilder;\nuse vstd::std_specs::hash::*;\nuse vstd::std_specs::iter::IteratorSpec;\n'),
     prelude='global size_of usize == 8;\n' + PRELUDE,
     items=ITEMS,
     negative_controls=['negctl_insert_adds_on_top'],
